@@ -55,6 +55,9 @@ def r1_r2_header(repo, report):
             bad.append({"index": i, "value": v, "expected": ref})
     report.ob("C14.R1", "SCORE_TO_ERROR_RATE values", not bad, facts={"entries": len(vals), "wrong": bad[:3]}, expected="entry i = 10^(-i/10) within 4 ulp", loc="src/cutadapt/expected_errors.h", cases=len(vals),
               why=(f"entry {bad[0]['index']} is {bad[0]['value']!r}, expected {bad[0]['expected']!r}" if bad else ""))
+    ctype = getattr(h, "table_types", {}).get("SCORE_TO_ERROR_RATE")
+    report.ob("C14.R1", "SCORE_TO_ERROR_RATE is stored in double precision", ctype in ("double", "long double"), facts={"element_type": ctype}, expected="double (the literals are given to 16 digits; the sum is compared with thresholds such as --max-ee 0.1)", loc="src/cutadapt/expected_errors.h",
+              why="" if ctype in ("double", "long double") else "every entry is rounded to single precision before it is added: the expected-error value is off by about 1e-8 relative, enough to move reads that sit exactly on a threshold")
     report.ob("C14.R1", "SCORE_TO_ERROR_RATE size", size == len(vals) == 94, facts={"declared": size, "initialisers": len(vals)}, expected="94 = 126 - 33 + 1 entries", loc="src/cutadapt/expected_errors.h")
     if "expected_errors_from_phreds" not in h.functions:
         raise Unrecognised("expected_errors_from_phreds not found in the header")
